@@ -87,3 +87,76 @@ def run_objs(chk, results):
             elif mw != o['written']:
                 nbad += 1; chk.tie_broken('correspondence', 'objs', 'written objects of %r: real %r, model writer %r' % (r['argv'], o['written'], mw))
     chk.stages['objs'] = dict(command_lines=len(items), compared=ncmp, disagreements=nbad, untagged_objects=untagged)
+
+
+def _rows(b):
+    return [[int(x) for x in re.findall(r'-?\d+', row)] for row in re.findall(r'\[([^\[\]]*)\]', b)]
+
+def run_loads(chk, results):
+    """load numbering: the model writer (Model/LoadOrder.v) on the real model's lumped loads must give the load section
+    of the real written text (defining options in the parser's order, attachments carrying the right number), the model
+    reader the order of the loads of the real re-read model"""
+    items = [r for r in results if r.get('lds')]
+    if not all(vo_ok(f) for f in ('Corr/OptDriver.v', 'Model/LoadOrder.v')):
+        chk.tie_broken('correspondence', 'loads', 'model (Model/LoadOrder.v) does not compile'); return
+    per = 300
+    groups = [items[k:k + per] for k in range(0, len(items), per)]
+    jobs = [('lds_%d_%d' % (os.getpid(), gi), HEADER + '\n'.join(
+              'Eval vm_compute in (loads_case %s).' % coq_list(['((%d)%%Z, %s)' % (k, zl(ids)) for k, ids in r['lds']['given']])
+              for r in g) + '\n') for gi, g in enumerate(groups)]
+    outs = coq_evals(jobs)
+    nbad = ncmp = mixed = 0
+    for g, (rc, out) in zip(groups, outs):
+        blocks = re.findall(r'(?s)=\s*(\[.*?\])\s*:\s*list \(list Z\)', out)
+        if rc != 0 or len(blocks) != len(g):
+            chk.tie_broken('correspondence', 'loads', 'model evaluation failed: ' + out[-600:]); continue
+        for r, b in zip(g, blocks):
+            o = r['lds']; rows = _rows(b); ncmp += 1
+            kinds = [k for k, _ in o['given']]
+            if kinds != sorted(kinds): mixed += 1
+            chk.add_case('lds:' + json.dumps(o['given']), len(o['given']) > 1, sample=dict(loads=len(o['given']), kinds=kinds))
+            if 'unparsed' in o:
+                nbad += 1; chk.notes.setdefault('failing_argv', []).append(r['argv'])
+                chk.tie_broken('correspondence', 'loads', '%r: %s' % (r['argv'], o['unparsed'])); continue
+            cut = rows.index([-2]); mw, mr = rows[:cut], rows[cut + 1:]
+            if mw != o['written']:
+                nbad += 1; chk.notes.setdefault('failing_argv', []).append(r['argv'])
+                chk.tie_broken('correspondence', 'loads', 'written loads of %r: real %r, model writer %r' % (r['argv'], o['written'], mw))
+            elif o['reread'] is not None and [x[0] for x in mr] != o['reread']:
+                nbad += 1; chk.notes.setdefault('failing_argv', []).append(r['argv'])
+                chk.tie_broken('correspondence', 'loads', 're-read loads of %r: real order %r, model reader %r' % (r['argv'], o['reread'], mr))
+    chk.stages['loads'] = dict(command_lines=len(items), compared=ncmp, disagreements=nbad, registered_in_mixed_kind_order=mixed)
+
+def run_srcs(chk, results):
+    """sources: the model writer (Model/SourceOpts.v) on the real model's sources must give the source options of the real
+    written text, the model reader the sources of the real re-read model"""
+    items = [r for r in results if r.get('srcs')]
+    if not all(vo_ok(f) for f in ('Corr/OptDriver.v', 'Model/SourceOpts.v')):
+        chk.tie_broken('correspondence', 'srcs', 'model (Model/SourceOpts.v) does not compile'); return
+    per = 300
+    groups = [items[k:k + per] for k in range(0, len(items), per)]
+    jobs = [('srcs_%d_%d' % (os.getpid(), gi), HEADER + '\n'.join(
+              'Eval vm_compute in (srcs_case %s).' % coq_list(['((%d)%%Z, %s, %s)' % (v, zl(a), 'true' if d else 'false') for v, a, d in r['srcs']['given']])
+              for r in g) + '\n') for gi, g in enumerate(groups)]
+    outs = coq_evals(jobs)
+    nbad = ncmp = 0; forms = dict(default=0, one_volt_single=0, several=0, per_object=0)
+    for g, (rc, out) in zip(groups, outs):
+        blocks = re.findall(r'(?s)=\s*(\[.*?\])\s*:\s*list \(list Z\)', out)
+        if rc != 0 or len(blocks) != len(g):
+            chk.tie_broken('correspondence', 'srcs', 'model evaluation failed: ' + out[-600:]); continue
+        for r, b in zip(g, blocks):
+            o = r['srcs']; rows = _rows(b); ncmp += 1
+            gv = o['given']
+            if any(d for _, _, d in gv): forms['default'] += 1
+            if len(gv) == 1 and gv[0][0] == 1: forms['one_volt_single'] += 1
+            if len(gv) > 1: forms['several'] += 1
+            if any(len(a) == 2 for _, a, _ in gv): forms['per_object'] += 1
+            chk.add_case('srcs:' + json.dumps(gv), True, sample=dict(sources=len(gv)))
+            cut = rows.index([-2]); mw, mr = rows[:cut], rows[cut + 1:]
+            if mw != o['written']:
+                nbad += 1; chk.notes.setdefault('failing_argv', []).append(r['argv'])
+                chk.tie_broken('correspondence', 'srcs', 'written sources of %r: real %r, model writer %r' % (r['argv'], o['written'], mw))
+            elif o['reread'] is not None and mr != o['reread']:
+                nbad += 1; chk.notes.setdefault('failing_argv', []).append(r['argv'])
+                chk.tie_broken('correspondence', 'srcs', 're-read sources of %r: real %r, model reader %r' % (r['argv'], o['reread'], mr))
+    chk.stages['srcs'] = dict(command_lines=len(items), compared=ncmp, disagreements=nbad, forms=forms)
